@@ -2,6 +2,7 @@ package props
 
 import (
 	"fmt"
+	"strings"
 	"testing"
 
 	"github.com/mfcochauxlaberge/jsonapi"
@@ -239,12 +240,31 @@ func TestC02RoundTrip(t *testing.T) {
 			t.Fatalf("C02 violated: MarshalDocument failed: %v\ncase: %s", err, c)
 		}
 
-		if p := oracle.Try(func() { doc2, err = jsonapi.UnmarshalDocument(payload, c.SS.Schema) }); p != nil {
+		// A payload may sit in a batch for a while: one case in three marshals
+		// two other documents of about the same size before the first payload
+		// is read.
+		if rapid.IntRange(0, 2).Draw(t, "batch") == 0 {
+			for i := 0; i < 2; i++ {
+				other := &jsonapi.Document{Meta: jsonapi.Meta{"batch": strings.Repeat("#", len(payload)/(i+1))}}
+				if p := oracle.Try(func() { _, _ = jsonapi.MarshalDocument(other, c.URL) }); p != nil {
+					t.Fatalf("C02 violated: MarshalDocument %s on a meta-only document\ncase: %s", p, c)
+				}
+			}
+		}
+
+		// The reader hands over its own buffer and reuses it afterwards.
+		wire := append([]byte(nil), payload...)
+
+		if p := oracle.Try(func() { doc2, err = jsonapi.UnmarshalDocument(wire, c.SS.Schema) }); p != nil {
 			t.Fatalf("C02 violated: UnmarshalDocument %s\ncase: %s\npayload: %s", p, c, payload)
 		}
 
 		if err != nil {
-			t.Fatalf("C02 violated: UnmarshalDocument rejected the marshaled document: %v\ncase: %s\npayload: %s", err, c, payload)
+			t.Fatalf("C02 violated: UnmarshalDocument rejected the marshaled document: %v\ncase: %s\npayload: %s", err, c, wire)
+		}
+
+		for i := range wire {
+			wire[i] = '#'
 		}
 
 		if msg := roundTripOracle(c, payload, doc2); msg != "" {
